@@ -154,6 +154,31 @@ class CallGraph:
                                     targets.append(m[1])
             elif isinstance(f, ast.Attribute) and isinstance(f.value, ast.Name) and f.value.id in ("self", "cls") and ci is not None:
                 targets += self._methods(ci, f.attr)
+            elif isinstance(f, ast.Attribute) and isinstance(f.value, ast.Name) and f.value.id not in ("self", "cls"):
+                # x = ClassName(...); x.m(...)
+                rc = self._local_class(func, f.value.id, mod)
+                if rc is not None:
+                    targets += self._methods(rc, f.attr)
+            elif isinstance(f, ast.Attribute) and isinstance(f.value, ast.Attribute) and isinstance(f.value.value, ast.Name) \
+                    and f.value.value.id == "self" and ci is not None:
+                # self.attr.m(...) where some method assigns self.attr = ClassName(...)
+                rc = self._attr_class(ci, f.value.attr)
+                if rc is not None:
+                    targets += self._methods(rc, f.attr)
+            elif isinstance(f, ast.Call) and isinstance(f.func, ast.Name) and f.func.id == "getattr" and len(f.args) >= 2 \
+                    and isinstance(f.args[0], ast.Name) and f.args[0].id == "self" and ci is not None:
+                # getattr(self, f"parse_{name}")(): every method with that prefix
+                a1 = f.args[1]
+                prefix = None
+                if isinstance(a1, ast.JoinedStr) and a1.values and isinstance(a1.values[0], ast.Constant):
+                    prefix = str(a1.values[0].value)
+                elif isinstance(a1, ast.BinOp) and isinstance(a1.left, ast.Constant):
+                    prefix = str(a1.left.value)
+                if prefix:
+                    for c2 in self.classes.mro(ci):
+                        for mn, m in c2.methods().items():
+                            if mn.startswith(prefix) and m not in targets:
+                                targets.append(m)
             elif isinstance(f, ast.IfExp) and ci is not None:
                 # (self.a if cond else self.b)(...)
                 for alt in (f.body, f.orelse):
@@ -163,6 +188,41 @@ class CallGraph:
                 out.append((n, t))
         self._edges[func] = out
         return out
+
+    def _local_class(self, func: ast.AST, name: str, mod: Module) -> ClassInfo | None:
+        for n in ast.walk(func):
+            if isinstance(n, ast.Assign) and len(n.targets) == 1 and isinstance(n.targets[0], ast.Name) and n.targets[0].id == name \
+                    and isinstance(n.value, ast.Call) and isinstance(n.value.func, ast.Name):
+                rc = self.classes.resolve_class_expr(mod, n.value.func)
+                if rc is not None:
+                    return rc
+        return None
+
+    def _attr_class(self, ci: ClassInfo, attr: str) -> ClassInfo | None:
+        for c in self.classes.mro(ci):
+            for m in c.methods().values():
+                for n in ast.walk(m):
+                    if isinstance(n, ast.Assign) and len(n.targets) == 1 and isinstance(n.targets[0], ast.Attribute) \
+                            and isinstance(n.targets[0].value, ast.Name) and n.targets[0].value.id == "self" and n.targets[0].attr == attr:
+                        v = n.value
+                        # Lexer(source) / (A if x else B)(source)
+                        cands = []
+                        if isinstance(v, ast.Call):
+                            fn = v.func
+                            cands = [fn.body, fn.orelse] if isinstance(fn, ast.IfExp) else [fn]
+                        for cand in cands:
+                            if isinstance(cand, ast.Name):
+                                rc = self.classes.resolve_class_expr(c.mod, cand)
+                                if rc is not None:
+                                    return rc
+            for s in c.node.body:
+                if isinstance(s, ast.AnnAssign) and isinstance(s.target, ast.Name) and s.target.id == attr:
+                    for nm in ast.walk(s.annotation):
+                        if isinstance(nm, ast.Name):
+                            rc = self.classes.resolve_class_expr(c.mod, nm)
+                            if rc is not None:
+                                return rc
+        return None
 
     def _methods(self, ci: ClassInfo, name: str) -> list[ast.AST]:
         out: list[ast.AST] = []
